@@ -376,7 +376,7 @@ impl Property for C15 {
         vec![("unit-interleavings", 3), ("cluster", 1)]
     }
     fn budget(&self) -> (u64, u64) {
-        (30_000, 1_000_000)
+        (100_000, 2_000_000)
     }
     fn rule(&self) -> &'static str {
         "unit-interleavings: 2-4 tasks call Databases::register_pending_opp / acknowledge_pending_opp for 1-3 operations x 1-3 nodes (each pair registered at most once; acks incl. duplicates, acks before registration, acks from nodes never targeted) on the Databases of a node booted by start_db, every lock/atomic a preemption point; the return values and the final (pending?, replicate_count, ack_count) per operation must be explained by some order of the calls consistent with real time against a set model. cluster: 2-3 real nodes, 1-6 replicated writes, pending_ops must be > 0 before any ack can arrive and 0 at quiescence, and a rogue authenticated peer injects duplicate / unknown / foreign ack lines that must change neither pending_ops nor debug pending-ops. Non-trivial: two calls overlapped (unit) or a rogue ack was injected (cluster). distinct = distinct (program, task-switch sequence)."
